@@ -1161,51 +1161,6 @@ Section SigConv.
     Qed.
   End Args.
 
-  (* ---------- func_call.rs: the call itself (callee is not a field access: no chain) ---------- *)
-  Section Call.
-    Variable t : tree.
-    Variable kids : list bundle.
-    Hypothesis Hgood : Forall sgood kids.
-    Hypothesis Hscope : Forall (fun b => sc (bt b) = true) kids.
-
-    Lemma cons_convert_func_call self c :
-      bt self = t -> bkids self = kids ->
-      match find is_expr (map bt kids) with
-      | Some cal =>
-          negb (kind_eqb (kind_of cal) KFieldAccess) &&
-          negb (match (if kind_eqb (kind_of cal) KIdent then Some (text_of cal) else None) with
-                | Some n => existsb (str_eqb n) TABLE_FUNCS | None => false end) &&
-          str_eqb (tsigl (map bt kids)) (tsig cal ++ match find (fun c => kind_eqb (kind_of c) KArgs) (rev (map bt kids)) with Some a => tsig a | None => [] end)
-      | None => false
-      end = true ->
-      post (convert_func_call swidth cfg self c) (good_doc (tsigs kids)).
-    Proof.
-      intros Et Ek Hcl. rewrite find_map_bt in Hcl.
-      destruct (find (fun b => is_expr (bt b)) kids) as [cal|] eqn:Ef; cbn [option_map] in Hcl; [|discriminate].
-      apply andb_prop in Hcl. destruct Hcl as [Hcl He]. apply andb_prop in Hcl. destruct Hcl as [Hnf Hnt].
-      apply (proj1 (str_eqb_eq _ _)) in He. rewrite tsigl_map in He. rewrite <- map_rev, (find_map_bt (fun c => kind_eqb (kind_of c) KArgs)) in He.
-      pose proof (find_some _ _ Ef) as [Hcin _]. rewrite Forall_forall in Hgood, Hscope.
-      unfold convert_func_call, first_kid. rewrite Ek, Ef. unfold bk.
-      destruct (kind_eqb (kind_of (bt cal)) KFieldAccess); [discriminate|].
-      apply (post_bind _ _ (fun o => o = None)); [apply post_ret; reflexivity|]. intros o ->.
-      unfold convert_func_call_plain, first_kid, args_of_call, last_kid. rewrite Ek, Ef. rewrite He.
-      eapply post_bind; [apply (sgood_call cal (RExpr c)); [apply Hgood; exact Hcin|apply Hscope; exact Hcin|reflexivity]|].
-      intros dc Hdc.
-      unfold is_kind.
-      destruct (find (fun k => kind_eqb (kind_of (bt k)) KArgs) (rev kids)) as [a|] eqn:Ea; cbn [option_map].
-      - pose proof (find_some _ _ Ea) as [Hain Hak]. apply in_rev in Hain.
-        assert (Eti : table_info_of self a = NotTable).
-        { unfold table_info_of, is_table, indent_func_name, first_kid. rewrite Ek, Ef. unfold bk.
-          destruct (kind_eqb (kind_of (bt cal)) KIdent); [|reflexivity].
-          unfold str_in. destruct (existsb _ TABLE_FUNCS); [discriminate|reflexivity]. }
-        rewrite Eti.
-        eapply post_bind; [apply (sgood_call a (RFuncArgs c NotTable)); [apply Hgood; exact Hain|apply Hscope; exact Hain|]|].
-        + cbn. unfold is_kind. rewrite Hak. reflexivity.
-        + intros da Hda. apply post_ret. apply good_append; assumption.
-      - destruct (is_math_mode _); [intros n d n' H; discriminate H|].
-        eapply post_bind; [apply post_ret; apply good_nil|]. intros da Hda. apply post_ret. apply good_append; assumption.
-    Qed.
-  End Call.
 
   Lemma sc_inner' t : sc t = true -> inner_kind (kind_of t) = true ->
     knode_ok (kind_of t) (children t) = true /\ Forall (fun c => sc c = true) (children t).
@@ -1645,6 +1600,683 @@ Section SigConv.
     Qed.
   End Stateful.
 
+  (* ---------- code_chain.rs: dot chains ---------- *)
+  Lemma post_and {A} (m : M A) P Q : post m P -> post m Q -> post m (fun a => P a /\ Q a).
+  Proof. intros HP HQ n a n' E. split; [apply (HP n a n' E)|apply (HQ n a n' E)]. Qed.
+
+  Lemma foldM_app_run {A S} (f : S -> A -> M S) l1 l2 : forall s n a n',
+    foldM f (l1 ++ l2) s n = Ok (a, n') ->
+    exists s' n1, foldM f l1 s n = Ok (s', n1) /\ foldM f l2 s' n1 = Ok (a, n').
+  Proof.
+    induction l1 as [|x l1 IH]; intros s n a n' E; cbn [app foldM] in *.
+    - exists s, n. split; [reflexivity|exact E].
+    - unfold bind in *. destruct (f s x n) as [[s1 n1]|]; [|discriminate]. apply IH. exact E.
+  Qed.
+  Lemma post_foldM_app {A S} (f : S -> A -> M S) l1 l2 s (P Q : S -> Prop) :
+    post (foldM f l1 s) P -> (forall s', P s' -> post (foldM f l2 s') Q) -> post (foldM f (l1 ++ l2) s) Q.
+  Proof.
+    intros H1 H2 n a n' E. destruct (foldM_app_run f l1 l2 s n a n' E) as (s' & n1 & E1 & E2).
+    apply (H2 s' (H1 n s' n1 E1) n1 a n' E2).
+  Qed.
+
+  Definition cw_all (ch : chain) : Prop := Forall (fun it => cwsig it = true) (ch_items ch).
+  Lemma csigs_one x : csigs [x] = csig x.
+  Proof. unfold csigs. cbn. apply app_nil_r. Qed.
+  Lemma csigs_snoc its x : csigs (its ++ [x]) = csigs its ++ csig x.
+  Proof. rewrite csigs_app, csigs_one. reflexivity. Qed.
+  Lemma cw_snoc its x : Forall (fun it => cwsig it = true) its -> cwsig x = true -> Forall (fun it => cwsig it = true) (its ++ [x]).
+  Proof. intros H Hx. apply Forall_app. split; [exact H|constructor; [exact Hx|constructor]]. Qed.
+
+  Definition dot_opc (s : unit) (child : bundle) : unit * option doc :=
+    (s, if kind_eqb (bk child) KDot then Some (text [46]) else None).
+  Definition dot_rhs (_ : ctx) (child : bundle) : M (option doc) :=
+    if kind_eqb (bk child) KIdent then ret (Some (convert_trivia swidth (bt child))) else ret None.
+
+  Definition sim_dot_step (c : tree) (seen : bool) : str * bool :=
+    if kind_eqb (kind_of c) KDot then ([46], true)
+    else if is_comment_node c then (tsig c, seen)
+    else if kind_eqb (kind_of c) KSpace then ([], seen)
+    else if seen then ((if kind_eqb (kind_of c) KIdent then tsig c else []), seen)
+    else ([], seen).
+  Lemma sim_dot_cons c r seen : sim_dot (c :: r) seen = fst (sim_dot_step c seen) ++ sim_dot r (snd (sim_dot_step c seen)).
+  Proof.
+    cbn [sim_dot]. unfold sim_dot_step. destruct (kind_eqb (kind_of c) KDot); [reflexivity|].
+    destruct (is_comment_node c); [reflexivity|]. destruct (kind_eqb (kind_of c) KSpace); [reflexivity|].
+    destruct seen; reflexivity.
+  Qed.
+
+  Lemma dot_inner_step_sig c k ch ca seen :
+    sc (bt k) = true -> cw_all ch ->
+    post (chain_inner_step swidth c dot_opc dot_rhs (ch, ca, seen, tt) k)
+         (fun st => csigs (ch_items (fst (fst (fst st)))) = csigs (ch_items ch) ++ fst (sim_dot_step (bt k) seen) /\
+                    cw_all (fst (fst (fst st))) /\ snd (fst st) = snd (sim_dot_step (bt k) seen) /\ snd st = tt).
+  Proof.
+    intros Hk Hw. unfold chain_inner_step, dot_opc, sim_dot_step, bk, is_comment_b.
+    destruct (kind_eqb (kind_of (bt k)) KDot) eqn:E1.
+    { apply post_ret. cbn [fst snd ch_items]. rewrite csigs_snoc. cbn [csig]. rewrite dsig_text.
+      repeat split. apply cw_snoc; [exact Hw|apply wsig_text]. }
+    destruct (is_comment_node (bt k)) eqn:E2.
+    { eapply post_bind; [apply post_comment; assumption|]. intros d [Hd Wd]. apply post_ret. cbn [fst snd ch_items].
+      rewrite csigs_snoc. repeat split; [destruct ca; cbn [csig]; rewrite Hd; reflexivity|].
+      apply cw_snoc; [exact Hw|destruct ca; exact Wd]. }
+    destruct (kind_eqb (kind_of (bt k)) KSpace) eqn:E3.
+    { destruct (has_lb _); apply post_ret; cbn [fst snd]; [|rewrite app_nil_r; auto].
+      destruct (chain_last_is_comment _); cbn [ch_items]; [|rewrite app_nil_r; auto].
+      rewrite csigs_snoc. cbn [csig]. repeat split. apply cw_snoc; [exact Hw|reflexivity]. }
+    destruct seen.
+    - unfold dot_rhs, bk. destruct (kind_eqb (kind_of (bt k)) KIdent) eqn:E4.
+      + eapply post_bind; [apply post_ret; exact eq_refl|]. intros o <-. apply post_ret. cbn [fst snd ch_items].
+        destruct (good_trivia k Hk) as [Hd Wd]; [unfold bk; apply keq in E4; rewrite E4; reflexivity|].
+        rewrite csigs_snoc. cbn [csig]. rewrite Hd. repeat split. apply cw_snoc; assumption.
+      + eapply post_bind; [apply post_ret; exact eq_refl|]. intros o <-. apply post_ret. cbn [fst snd]. rewrite app_nil_r. auto.
+    - apply post_ret. cbn [fst snd]. rewrite app_nil_r. auto.
+  Qed.
+
+  Lemma dot_inner_sig c ks : forall ch ca seen,
+    Forall (fun b => sc (bt b) = true) ks -> cw_all ch ->
+    post (foldM (chain_inner_step swidth c dot_opc dot_rhs) ks (ch, ca, seen, tt))
+         (fun st => csigs (ch_items (fst (fst (fst st)))) = csigs (ch_items ch) ++ sim_dot (map bt ks) seen /\ cw_all (fst (fst (fst st)))).
+  Proof.
+    induction ks as [|k ks IH]; intros ch ca seen Hs Hw; cbn [foldM map].
+    - apply post_ret. cbn [fst sim_dot]. rewrite app_nil_r. auto.
+    - inversion Hs as [|? ? Hk Hks]; subst. rewrite sim_dot_cons.
+      eapply post_bind; [apply dot_inner_step_sig; assumption|].
+      intros [[[ch1 ca1] seen1] []] (E1 & W1 & S1 & _). cbn [fst snd] in *. subst seen1.
+      eapply post_weaken; [apply IH; assumption|]. intros st [E W]. rewrite E, E1, <- app_assoc. auto.
+  Qed.
+
+  Lemma tree_height_child c k cs a : In c cs -> (tree_height c < tree_height (Inner k cs a))%nat.
+  Proof.
+    cbn [tree_height]. induction cs as [|x r IH]; intros Hin; [contradiction|]. cbn [fold_right].
+    destruct Hin as [->|Hin]; [lia|]. specialize (IH Hin). lia.
+  Qed.
+  Lemma tree_height_pos t : (1 <= tree_height t)%nat.
+  Proof. destruct t; cbn; lia. Qed.
+
+  Definition cg (b : bundle) : Prop := sgood b /\ sc (bt b) = true /\ is_expr (bt b) = true.
+
+  Lemma cg_kid b k : sgood b -> sc (bt b) = true -> inner_kind (bk b) = true -> In k (bkids b) -> sgood k /\ sc (bt k) = true.
+  Proof.
+    intros Hg Hs Hk Hin. split.
+    - pose proof (good_kids _ _ Hg) as H. rewrite Forall_forall in H. apply H. exact Hin.
+    - destruct (sc_inner' _ Hs Hk) as [_ Hc]. rewrite <- (good_shape _ _ Hg) in Hc. rewrite Forall_forall in Hc.
+      apply Hc. apply in_map. exact Hin.
+  Qed.
+
+  Definition dot_fb (c : ctx) (node : bundle) : M (option doc) :=
+    if kind_eqb (bk node) KFuncCall then
+      match args_of_call node with
+      | Some a => d <- call a (RArgs c) ;; ret (Some d)
+      | None => ret (Some DNil)
+      end
+    else if is_expr (bt node) then d <- call node (RExpr c) ;; ret (Some d)
+    else ret None.
+  Definition dot_pred (node : bundle) : bool := kind_eqb (bk node) KFieldAccess.
+
+  Lemma csigs_glue r body fb : csigs (rev r ++ [CBody (append body fb)]) = csigs (rev r ++ [CBody body]) ++ dsig fb.
+  Proof. rewrite !csigs_snoc. cbn [csig]. rewrite dsig_append, app_assoc. reflexivity. Qed.
+
+  Lemma first_kid_hd b e rest :
+    map bt (bkids b) = e :: rest -> is_expr e = true ->
+    exists b', first_kid is_expr b = Some b' /\ bt b' = e /\ In b' (bkids b).
+  Proof.
+    intros Hm He. unfold first_kid. destruct (bkids b) as [|x l]; [discriminate|]. cbn in Hm. inversion Hm; subst.
+    cbn [find]. rewrite He. exists x. repeat split. left. reflexivity.
+  Qed.
+
+  Lemma dot_outer_step_sig c b ch ca :
+    cg b -> cw_all ch ->
+    match dot_chain_next b with Some b' => csigs (ch_items ch) = tsig (bt b') | None => ch_items ch = [] end ->
+    post (chain_outer_step swidth c dot_pred dot_opc dot_rhs dot_fb (ch, ca, tt) b)
+         (fun st => csigs (ch_items (fst (fst st))) = tsig (bt b) /\ cw_all (fst (fst st)) /\ snd st = tt).
+  Proof.
+    intros (Hg & Hs & He) Hw Hprev. unfold chain_outer_step, dot_pred, dot_chain_next in *. unfold bk in *.
+    pose proof (good_shape _ _ Hg) as Hshape.
+    destruct (kind_eqb (kind_of (bt b)) KFieldAccess) eqn:Efa.
+    - apply keq in Efa. rewrite Efa in Hprev.
+      assert (Hk : inner_kind (kind_of (bt b)) = true) by (rewrite Efa; reflexivity).
+      destruct (sc_inner' _ Hs Hk) as [Hcl Hck]. rewrite Efa in Hcl. cbn [knode_ok] in Hcl.
+      destruct (children (bt b)) as [|e rest] eqn:Ecs; [discriminate|].
+      apply andb_prop in Hcl. destruct Hcl as [Hcl _]. apply andb_prop in Hcl. destruct Hcl as [Hcl _].
+      apply andb_prop in Hcl. destruct Hcl as [Hie Heq]. apply (proj1 (str_eqb_eq _ _)) in Heq.
+      destruct (first_kid_hd b e rest Hshape Hie) as (b' & Hfk & Hbt & Hin). rewrite Hfk in Hprev.
+      eapply post_bind.
+      + apply (dot_inner_sig c (bkids b) (mk_chain (ch_items ch) (ch_op_num ch + 1) (ch_has_comment ch)) ca false); [|exact Hw].
+        rewrite <- Hshape in Hck. apply Forall_forall. intros k Hink. rewrite Forall_forall in Hck. apply Hck. apply in_map. exact Hink.
+      + intros [[[ch1 ca1] so1] s1] [E W]. cbn [fst snd ch_items] in *. apply post_ret. cbn [fst snd]. destruct s1.
+        assert (Hsh0 : map bt (bkids b) = children (bt b)) by (rewrite Ecs; exact Hshape).
+        split; [|auto]. rewrite E, Hprev, Hbt, Hshape, <- Heq.
+        rewrite (tsig_kids' (bt b) (bkids b) Hsh0 Hk Hs). rewrite <- tsigl_map, Hshape. reflexivity.
+    - unfold dot_fb, bk. destruct (kind_eqb (kind_of (bt b)) KFuncCall) eqn:Efc.
+      + apply keq in Efc. rewrite Efc in Hprev.
+        assert (Hk : inner_kind (kind_of (bt b)) = true) by (rewrite Efc; reflexivity).
+        destruct (sc_inner' _ Hs Hk) as [Hcl Hck]. rewrite Efc in Hcl. cbn [knode_ok] in Hcl. rewrite <- Hshape in Hcl.
+        rewrite find_map_bt in Hcl. unfold first_kid in Hprev.
+        destruct (find (fun k => is_expr (bt k)) (bkids b)) as [cal|] eqn:Ef; cbn [option_map] in Hcl; [|discriminate].
+        apply andb_prop in Hcl. destruct Hcl as [_ Heq]. apply (proj1 (str_eqb_eq _ _)) in Heq.
+        rewrite tsigl_map, <- map_rev, (find_map_bt (fun c => kind_eqb (kind_of c) KArgs)) in Heq.
+        rewrite (tsig_kids' (bt b) (bkids b) Hshape Hk Hs), Heq.
+        unfold args_of_call, last_kid, is_kind.
+        assert (Hglue : forall fb X, good_doc X fb ->
+                  post (match rev (ch_items ch) with
+                        | CBody body :: r => ret (mk_chain (rev r ++ [CBody (append body fb)]) (ch_op_num ch) (ch_has_comment ch), ca, tt)
+                        | _ => ret (mk_chain (ch_items ch ++ [CBody fb]) (ch_op_num ch) (ch_has_comment ch), ca, tt)
+                        end)
+                       (fun st => csigs (ch_items (fst (fst st))) = tsig (bt cal) ++ X /\ cw_all (fst (fst st)) /\ snd st = tt)).
+        { intros fb X [Hd Wd]. destruct (rev (ch_items ch)) as [|it r] eqn:Er.
+          - apply post_ret. cbn [fst snd ch_items]. rewrite csigs_snoc, Hprev. cbn [csig]. rewrite Hd. repeat split. apply cw_snoc; assumption.
+          - assert (Ei : ch_items ch = rev r ++ [it]) by (rewrite <- (rev_involutive (ch_items ch)), Er; reflexivity).
+            destruct it; try (apply post_ret; cbn [fst snd ch_items]; rewrite csigs_snoc, Hprev; cbn [csig]; rewrite Hd; repeat split; apply cw_snoc; assumption).
+            apply post_ret. cbn [fst snd ch_items]. rewrite csigs_glue, <- Ei, Hprev, Hd. repeat split.
+            unfold cw_all in *. cbn [ch_items]. rewrite Ei in Hw. apply Forall_app in Hw. destruct Hw as [Hr Hl]. inversion Hl; subst.
+            apply cw_snoc; [exact Hr|]. cbn [cwsig] in *. apply wsig_append; assumption. }
+        destruct (find (fun k => kind_eqb (kind_of (bt k)) KArgs) (rev (bkids b))) as [a|] eqn:Ea; cbn [option_map].
+        * pose proof (find_some _ _ Ea) as [Hain Hak]. apply in_rev in Hain. destruct (cg_kid b a Hg Hs Hk Hain) as [Hga Hsa].
+          apply (post_bind _ _ (fun o => exists d, o = Some d /\ good_doc (tsig (bt a)) d)).
+          -- eapply post_bind; [apply (sgood_call a (RArgs c) Hga Hsa); exact Hak|]. intros d Hd. apply post_ret. exists d. auto.
+          -- intros o (d & -> & Hd). apply Hglue. exact Hd.
+        * apply (post_bind _ _ (fun o => o = Some DNil)); [apply post_ret; reflexivity|]. intros o ->.
+          apply (Hglue DNil []). apply good_nil.
+      + (* any other expression: the innermost node of the chain *)
+        assert (Hnone : ch_items ch = []).
+        { destruct (kind_of (bt b)); try exact Hprev; discriminate. }
+        rewrite He. apply (post_bind _ _ (fun o => exists d, o = Some d /\ good_doc (tsig (bt b)) d)).
+        * eapply post_bind; [apply (sgood_call b (RExpr c) Hg Hs); reflexivity|]. intros d Hd. apply post_ret. exists d. auto.
+        * intros o (d & -> & [Hd Wd]). rewrite Hnone. cbn [rev app]. apply post_ret. cbn [fst snd ch_items].
+          rewrite csigs_one. cbn [csig]. repeat split; [exact Hd|]. constructor; [exact Wd|constructor].
+  Qed.
+
+  Lemma dot_chain_fold_sig c : forall d b,
+    (tree_height (bt b) <= d)%nat -> cg b ->
+    post (foldM (chain_outer_step swidth c dot_pred dot_opc dot_rhs dot_fb) (rev (resolve_chain dot_chain_next d b)) (chain_new, false, tt))
+         (fun st => csigs (ch_items (fst (fst st))) = tsig (bt b) /\ cw_all (fst (fst st)) /\ snd st = tt).
+  Proof.
+    induction d as [|d IH]; intros b Hh Hcg.
+    - pose proof (tree_height_pos (bt b)). lia.
+    - cbn [resolve_chain]. destruct (dot_chain_next b) as [b'|] eqn:En.
+      + cbn [rev].
+        assert (Hkid : In b' (bkids b) /\ is_expr (bt b') = true /\ inner_kind (bk b) = true).
+        { unfold dot_chain_next, first_kid in En. unfold bk in *.
+          destruct (kind_of (bt b)) eqn:Ekb; try discriminate En; apply find_some in En; destruct En; repeat split; auto. }
+        destruct Hkid as (Hin & Hie & Hik). destruct Hcg as (Hg & Hs & He). destruct (cg_kid b b' Hg Hs Hik Hin) as [Hg' Hs'].
+        assert (Hh' : (tree_height (bt b') <= d)%nat).
+        { pose proof (good_shape _ _ Hg) as Hsh. destruct (bt b) as [k s a|k cs a] eqn:Eb; cbn [children] in Hsh.
+          - destruct (bkids b); [contradiction|discriminate].
+          - assert (In (bt b') cs) by (rewrite <- Hsh; apply in_map; exact Hin).
+            pose proof (tree_height_child (bt b') k cs a H). lia. }
+        eapply post_foldM_app; [apply (IH b' Hh'); exact (conj Hg' (conj Hs' Hie))|].
+        intros [[ch ca] s] (E & W & Es). cbn [fst snd] in *. subst s. cbn [foldM].
+        eapply post_bind; [apply dot_outer_step_sig; [exact (conj Hg (conj Hs He))|exact W|rewrite En; exact E]|].
+        intros st H. apply post_ret. exact H.
+      + cbn [rev app foldM]. eapply post_bind; [apply dot_outer_step_sig; [exact Hcg|constructor|rewrite En; reflexivity]|].
+        intros st H. apply post_ret. exact H.
+  Qed.
+
+  Theorem cons_convert_dot_chain self c :
+    cg self -> post (convert_dot_chain swidth cfg self c) (good_doc (tsig (bt self))).
+  Proof.
+    intros Hcg. unfold convert_dot_chain.
+    eapply post_bind.
+    - apply post_and; [|apply (chain_process_attached_ok swidth)].
+      unfold chain_process. apply (post_bind _ _ (fun st : chain * bool * unit => csigs (ch_items (fst (fst st))) = tsig (bt self) /\ cw_all (fst (fst st)))).
+      + eapply post_weaken; [apply (dot_chain_fold_sig c (tree_height (bt self)) self (le_n _) Hcg)|]. intros st (E & W & _). auto.
+      + intros [[ch ca] s] [E W]. apply post_ret. cbn [fst] in *. exact (conj E W).
+    - intros ch [[E W] Hatt]. unfold chain_doc, lift. intros n d n' H.
+      destruct (chain_print_doc swidth (tab_spaces cfg) ch (mk_cs true false)) as [d0|] eqn:Ep; [|discriminate].
+      inversion H; subst. destruct (chain_print_sig swidth (tab_spaces cfg) ch _ d Hatt Ep) as [Hd Hwd].
+      split; [rewrite Hd; exact E|apply Hwd; exact W].
+  Qed.
+
+  (* ---------- try_convert_dot_chain_plain ---------- *)
+  Lemma field_token b : sc (bt b) = true -> inner_kind (kind_of (bt b)) = true -> tsig (field_of b) = sig (text_of (field_of b)).
+  Proof.
+    intros Hs Hk. unfold field_of, field_access_field, cast_last, find_last, or_default.
+    destruct (find (is_kind KIdent) (rev (children (bt b)))) as [x|] eqn:Ef; [|reflexivity].
+    apply find_some in Ef. destruct Ef as [Hin Hkx]. apply in_rev in Hin.
+    destruct (sc_inner' _ Hs Hk) as [_ Hc]. rewrite Forall_forall in Hc.
+    apply sc_token; [apply Hc; exact Hin|]. unfold is_kind in Hkx. apply keq in Hkx. rewrite Hkx. reflexivity.
+  Qed.
+
+  Lemma last_nonempty {A} (l : list A) d1 d2 : l <> [] -> last l d1 = last l d2.
+  Proof. induction l as [|x l IH]; intros H; [contradiction|]. destruct l; [reflexivity|]. cbn [last] in *. apply IH. discriminate. Qed.
+  Lemma last_cons_ne {A} (x : A) l d1 d2 : l <> [] -> last (x :: l) d1 = last l d2.
+  Proof. intros H. destruct l; [contradiction|]. cbn [last]. apply (last_nonempty (a :: l)). discriminate. Qed.
+  Lemma resolve_chain_ne next d b : resolve_chain next d b <> [].
+  Proof. destruct d; cbn; [discriminate|]. destruct (next b); discriminate. Qed.
+
+  Definition plain_step (d : doc) (b : bundle) : doc :=
+    if kind_eqb (bk b) KFieldAccess then append d (append (text [46]) (convert_trivia swidth (field_of b))) else d.
+
+  (* along a resolved chain (outermost first) whose members other than the first are field accesses without comments
+     and whose innermost node is an identifier, the plain document has the signature of the member it stops at *)
+  Lemma plain_fold_sig : forall d b,
+    (tree_height (bt b) <= d)%nat -> sgood b -> sc (bt b) = true ->
+    existsb has_comment_children_b (resolve_chain dot_chain_next d b) = false ->
+    forallb (fun x => negb (kind_eqb (bk x) KFuncCall)) (resolve_chain dot_chain_next d b) = true ->
+    kind_eqb (bk (last (resolve_chain dot_chain_next d b) b)) KIdent = true ->
+    good_doc (tsig (bt b)) (fold_left plain_step (rev (resolve_chain dot_chain_next d b)) (convert_trivia swidth (bt (last (resolve_chain dot_chain_next d b) b)))).
+  Proof.
+    induction d as [|d IH]; intros b Hh Hg Hs; [pose proof (tree_height_pos (bt b)); lia|].
+    cbn [resolve_chain]. destruct (dot_chain_next b) as [b'|] eqn:En.
+    - intros Hnc Hnf Hid. cbn [existsb forallb] in Hnc, Hnf.
+      apply Bool.orb_false_elim in Hnc. destruct Hnc as [Hncb Hnc]. apply andb_prop in Hnf. destruct Hnf as [Hnfb Hnf].
+      assert (Hkid : In b' (bkids b) /\ inner_kind (bk b) = true /\ kind_of (bt b) = KFieldAccess).
+      { unfold dot_chain_next, first_kid in En. unfold bk in *.
+        destruct (kind_of (bt b)) eqn:Ekb; try discriminate En; try discriminate Hnfb; apply find_some in En; destruct En; repeat split; auto. }
+      destruct Hkid as (Hin & Hik & Efa). destruct (cg_kid b b' Hg Hs Hik Hin) as [Hg' Hs'].
+      pose proof (good_shape _ _ Hg) as Hshape.
+      assert (Hh' : (tree_height (bt b') <= d)%nat).
+      { destruct (bt b) as [k s a|k cs a] eqn:Eb; cbn [children] in Hshape.
+        - destruct (bkids b); [contradiction|discriminate].
+        - assert (In (bt b') cs) by (rewrite <- Hshape; apply in_map; exact Hin).
+          pose proof (tree_height_child (bt b') k cs a H). lia. }
+      assert (Hlast : last (b :: resolve_chain dot_chain_next d b') b = last (resolve_chain dot_chain_next d b') b').
+      { apply last_cons_ne. apply resolve_chain_ne. }
+      rewrite Hlast in *. cbn [rev]. rewrite fold_left_app. cbn [fold_left].
+      destruct (IH b' Hh' Hg' Hs' Hnc Hnf Hid) as [Hd Wd].
+      unfold plain_step at 1. unfold bk at 1. rewrite Efa. rewrite kind_eqb_refl.
+      (* the clause of the field access b *)
+      destruct (sc_inner' _ Hs Hik) as [Hcl _]. unfold bk in Hik. rewrite Efa in Hcl. cbn [knode_ok] in Hcl.
+      destruct (children (bt b)) as [|e rest] eqn:Ecs; [discriminate|].
+      apply andb_prop in Hcl. destruct Hcl as [Hcl _]. apply andb_prop in Hcl. destruct Hcl as [Hcl Hnoc].
+      apply andb_prop in Hcl. destruct Hcl as [Hie Heq]. apply (proj1 (str_eqb_eq _ _)) in Heq.
+      assert (Hsh0 : map bt (bkids b) = children (bt b)) by (rewrite Ecs; exact Hshape).
+      destruct (first_kid_hd b e rest Hshape Hie) as (b2 & Hfk & Hbt & _).
+      assert (b2 = b') by (unfold dot_chain_next in En; unfold bk in En; rewrite Efa in En; congruence). subst b2.
+      unfold has_comment_children_b, is_comment_b in Hncb. rewrite <- (existsb_map_bt is_comment_node), Hshape in Hncb.
+      rewrite Hncb in Hnoc. cbn [orb] in Hnoc. apply (proj1 (str_eqb_eq _ _)) in Hnoc.
+      assert (Hf : field_of b = field_access_field (Inner KFieldAccess (e :: rest) no_attrs)).
+      { unfold field_of, field_access_field, cast_last. cbn [children]. rewrite Ecs. reflexivity. }
+      assert (Hfield : good_doc (tsig (field_of b)) (convert_trivia swidth (field_of b))).
+      { unfold convert_trivia. rewrite (field_token b Hs Hik). apply good_text. }
+      split.
+      + rewrite !dsig_append, dsig_text, Hd. destruct Hfield as [Hfd _]. rewrite Hfd.
+        rewrite (tsig_kids' (bt b) (bkids b) Hsh0 Hik Hs), <- tsigl_map, Hshape, Heq, Hnoc, Hbt, Hf. reflexivity.
+      + apply wsig_append; [exact Wd|]. apply wsig_append; [apply wsig_text|apply Hfield].
+    - intros Hnc Hnf Hid. cbn [last rev app fold_left] in *.
+      apply keq in Hid. unfold plain_step, bk in *. rewrite Hid. replace (kind_eqb KIdent KFieldAccess) with false by reflexivity.
+      apply good_trivia; [exact Hs|]. unfold bk. rewrite Hid. reflexivity.
+  Qed.
+
+  Definition opt_good (target : str) (o : option doc) : Prop := match o with Some d => good_doc target d | None => True end.
+
+  Lemma filter_len1_tail (p : bundle -> bool) x l : p x = true -> length (filter p (x :: l)) = 1%nat -> forallb (fun y => negb (p y)) l = true.
+  Proof.
+    intros Hx H. cbn [filter] in H. rewrite Hx in H. cbn in H. inversion H as [H0]. clear H.
+    induction l as [|y l IH]; [reflexivity|]. cbn [filter forallb] in *. destruct (p y); [discriminate|]. cbn. apply IH. exact H0.
+  Qed.
+
+  Lemma funcall_eq self :
+    sgood self -> sc (bt self) = true -> kind_of (bt self) = KFuncCall ->
+    exists cal, first_kid is_expr self = Some cal /\ In cal (bkids self) /\
+      tsig (bt self) = tsig (bt cal) ++ match args_of_call self with Some a => tsig (bt a) | None => [] end /\
+      (forall a, args_of_call self = Some a -> In a (bkids self) /\ kind_eqb (kind_of (bt a)) KArgs = true).
+  Proof.
+    intros Hg Hs Ek. pose proof (good_shape _ _ Hg) as Hshape.
+    assert (Hk : inner_kind (kind_of (bt self)) = true) by (rewrite Ek; reflexivity).
+    destruct (sc_inner' _ Hs Hk) as [Hcl _]. rewrite Ek in Hcl. cbn [knode_ok] in Hcl. rewrite <- Hshape in Hcl.
+    rewrite find_map_bt in Hcl. unfold first_kid.
+    destruct (find (fun k => is_expr (bt k)) (bkids self)) as [cal|] eqn:Ef; cbn [option_map] in Hcl; [|discriminate].
+    apply andb_prop in Hcl. destruct Hcl as [_ Heq]. apply (proj1 (str_eqb_eq _ _)) in Heq.
+    rewrite tsigl_map, <- map_rev, (find_map_bt (fun c => kind_eqb (kind_of c) KArgs)) in Heq.
+    exists cal. split; [reflexivity|]. split; [apply (find_some _ _ Ef)|]. split.
+    - rewrite (tsig_kids' _ _ Hshape Hk Hs), Heq. unfold args_of_call, last_kid, is_kind.
+      destruct (find (fun k => kind_eqb (kind_of (bt k)) KArgs) (rev (bkids self))); reflexivity.
+    - intros a Ha. unfold args_of_call, last_kid, is_kind in Ha. apply find_some in Ha. destruct Ha as [Hin Hk']. apply in_rev in Hin. auto.
+  Qed.
+
+  Lemma cons_try_plain self c :
+    cg self ->
+    existsb has_comment_children_b (resolve_dot_chain self) = false ->
+    length (filter (fun b => kind_eqb (bk b) KFuncCall) (resolve_dot_chain self)) = 1%nat ->
+    post (try_convert_dot_chain_plain swidth cfg c (resolve_dot_chain self)) (opt_good (tsig (bt self))).
+  Proof.
+    intros (Hg & Hs & He) Hnc Hcn. unfold try_convert_dot_chain_plain, resolve_dot_chain in *.
+    destruct (tree_height (bt self)) as [|d] eqn:Eh; [pose proof (tree_height_pos (bt self)); lia|].
+    cbn [resolve_chain] in *. destruct (dot_chain_next self) as [cal|] eqn:En.
+    2:{ cbn [rev app]. destruct (kind_eqb (bk self) KFuncCall) eqn:E1; cbn [andb]; [|apply post_ret; exact I].
+        destruct (kind_eqb (bk self) KIdent) eqn:E2; [|apply post_ret; exact I].
+        apply keq in E1. apply keq in E2. congruence. }
+    set (L' := resolve_chain dot_chain_next d cal) in *.
+    cbn [rev].
+    destruct (rev L') as [|inner r] eqn:Er.
+    { exfalso. apply (resolve_chain_ne dot_chain_next d cal). fold L'. rewrite <- (rev_involutive L'), Er. reflexivity. }
+    cbn [app]. cbn [rev]. rewrite rev_app_distr. cbn [rev app tl].
+    destruct (kind_eqb (bk self) KFuncCall) eqn:E1; cbn [andb]; [|apply post_ret; exact I].
+    destruct (kind_eqb (bk inner) KIdent) eqn:E2; [|apply post_ret; exact I].
+    match goal with |- post (if ?b then _ else _) _ => destruct b end; [apply post_ret; exact I|].
+    unfold bk in E1. apply keq in E1.
+    destruct (funcall_eq self Hg Hs E1) as (cal' & Hfk & Hcin & Heq & Hargs).
+    assert (cal' = cal) by (unfold dot_chain_next, bk in En; rewrite E1 in En; congruence). subst cal'.
+    assert (Hik : inner_kind (bk self) = true) by (unfold bk; rewrite E1; reflexivity).
+    destruct (cg_kid self cal Hg Hs Hik Hcin) as [Hgc Hsc].
+    assert (Hlast : last L' cal = inner).
+    { rewrite <- (rev_involutive L'), Er. cbn [rev]. apply last_last. }
+    assert (Hh' : (tree_height (bt cal) <= d)%nat).
+    { pose proof (good_shape _ _ Hg) as Hsh. destruct (bt self) as [k s a|k cs a] eqn:Eb; cbn [children] in Hsh.
+      - destruct (bkids self); [contradiction|discriminate].
+      - assert (In (bt cal) cs) by (rewrite <- Hsh; apply in_map; exact Hcin).
+        pose proof (tree_height_child (bt cal) k cs a H). cbn [tree_height] in Eh. cbn [tree_height] in H0. lia. }
+    cbn [existsb] in Hnc. apply Bool.orb_false_elim in Hnc. destruct Hnc as [_ Hnc].
+    pose proof (filter_len1_tail (fun b => kind_eqb (bk b) KFuncCall) self L' ltac:(unfold bk; rewrite E1; reflexivity) Hcn) as Hnf.
+    pose proof (plain_fold_sig d cal Hh' Hgc Hsc Hnc Hnf) as Hplain. fold L' in Hplain. rewrite Hlast in Hplain. specialize (Hplain E2).
+    rewrite Er in Hplain. cbn [fold_left] in Hplain.
+    (* the code folds over inner :: r ++ [self]; self is a call, so the last step changes nothing *)
+    cbn [fold_left]. rewrite !fold_left_app. cbn [fold_left].
+    cbv beta delta [plain_step] in Hplain. cbv beta delta [plain_step].
+    replace (kind_eqb (bk self) KFieldAccess) with false by (unfold bk; rewrite E1; reflexivity).
+    rewrite Heq.
+    destruct (args_of_call self) as [a|] eqn:Ea.
+    - destruct (Hargs a eq_refl) as [Hain Hak]. destruct (cg_kid self a Hg Hs Hik Hain) as [Hga Hsa].
+      eapply post_bind; [apply (sgood_call a (RArgs c) Hga Hsa); exact Hak|]. intros x Hx. apply post_ret. cbn [opt_good].
+      apply good_append; assumption.
+    - apply post_ret. cbn [opt_good]. rewrite app_nil_r. exact Hplain.
+  Qed.
+
+  Lemma cons_try_convert_dot_chain self c :
+    cg self -> post (try_convert_dot_chain swidth cfg self c) (opt_good (tsig (bt self))).
+  Proof.
+    intros Hcg. unfold try_convert_dot_chain. destruct (c_supp c); [apply post_ret; exact I|].
+    apply (post_bind _ _ (opt_good (tsig (bt self)))).
+    - match goal with |- post (if ?b then _ else _) _ => destruct b eqn:Eb end; [|apply post_ret; exact I].
+      apply andb_prop in Eb. destruct Eb as [Eb Hnc]. apply andb_prop in Eb. destruct Eb as [_ Hcn].
+      apply cons_try_plain; [exact Hcg|destruct (existsb _ _); [discriminate|reflexivity]|apply Nat.eqb_eq; exact Hcn].
+    - intros o Ho. destruct o as [d|]; [apply post_ret; exact Ho|].
+      match goal with |- post (if ?b then _ else _) _ => destruct b end.
+      + eapply post_bind.
+        * unfold parenthesize_if_necessary. destruct (is_code_cont _); [apply cons_convert_dot_chain; exact Hcg|].
+          eapply post_bind; [apply cons_convert_dot_chain; exact Hcg|]. intros d [Hd Wd]. apply post_ret.
+          unfold optional_paren. split.
+          -- rewrite dsig_group, dsig_append, dsig_nest, dsig_append. cbn [dsig flat_alt]. rewrite Hd. cbn. rewrite app_nil_r. reflexivity.
+          -- rewrite wsig_group. apply wsig_append; [rewrite wsig_nest; apply wsig_append; [|exact Wd]|]; apply wsig_flat_alt; try reflexivity;
+               first [apply wsig_append; [apply wsig_text|reflexivity] | apply wsig_append; [reflexivity|apply wsig_text]].
+        * intros d Hd. apply post_ret. exact Hd.
+      + destruct (is_code_mode _); [|apply post_ret; exact I].
+        eapply post_bind; [apply cons_convert_dot_chain; exact Hcg|]. intros d Hd. apply post_ret. exact Hd.
+  Qed.
+
+  (* ---------- field access and calls, with or without a chain ---------- *)
+  Lemma cons_convert_field_access self c :
+    cg self -> kind_of (bt self) = KFieldAccess ->
+    post (convert_field_access swidth cfg self c) (good_doc (tsig (bt self))).
+  Proof.
+    intros Hcg Efa. pose proof Hcg as (Hg & Hs & He). unfold convert_field_access.
+    eapply post_bind; [apply cons_try_convert_dot_chain; exact Hcg|].
+    intros o Ho. destruct o as [d|]; [apply post_ret; exact Ho|].
+    pose proof (good_shape _ _ Hg) as Hshape.
+    assert (Hk : inner_kind (kind_of (bt self)) = true) by (rewrite Efa; reflexivity).
+    destruct (sc_inner' _ Hs Hk) as [Hcl Hck]. rewrite Efa in Hcl. cbn [knode_ok] in Hcl.
+    destruct (children (bt self)) as [|e rest] eqn:Ecs; [discriminate|].
+    assert (Hsh0 : map bt (bkids self) = children (bt self)) by (rewrite Ecs; exact Hshape).
+    apply andb_prop in Hcl. destruct Hcl as [Hcl Hkeep]. apply andb_prop in Hcl. destruct Hcl as [Hcl Hnoc].
+    apply andb_prop in Hcl. destruct Hcl as [Hie Heq]. apply (proj1 (str_eqb_eq _ _)) in Heq.
+    assert (Hkids : Forall sgood (bkids self) /\ Forall (fun b => sc (bt b) = true) (bkids self)).
+    { split; [apply (good_kids _ _ Hg)|]. apply Forall_forall. intros k Hin. apply (cg_kid self k Hg Hs Hk Hin). }
+    destruct Hkids as [Hgk Hsk].
+    destruct (has_comment_children_b self) eqn:Ehc.
+    - rewrite (tsig_kids' _ _ Hsh0 Hk Hs).
+      apply flow_like_sig. apply Forall_forall. intros child Hin. rewrite Forall_forall in Hgk, Hsk.
+      pose proof (Hgk child Hin) as Hsg. pose proof (Hsk child Hin) as Hsc.
+      rewrite <- Hshape in Hkeep. pose proof (all_kept_in _ _ (bt child) Hkeep (in_map bt _ _ Hin)) as Hkp. cbn beta in Hkp.
+      split; [exact Hsc|]. intros Hgen c0.
+      destruct (kind_eqb (bk child) KDot) eqn:E1.
+      { apply post_ret. fsimp. apply (good_lit_fixed _ _ Hsc). unfold bk in *. apply keq in E1. rewrite E1. reflexivity. }
+      destruct (is_expr (bt child)) eqn:E2.
+      { pstep Hsg Hsc. apply post_ret. fsimp. split; assumption. }
+      apply post_ret. fsimp. unfold bk in E1. rewrite ?Hgen, ?E1, ?E2 in Hkp. cbn in Hkp. unfold sig_empty in Hkp.
+      destruct (tsig (bt child)); [reflexivity|discriminate].
+    - unfold has_comment_children_b, is_comment_b in Ehc. rewrite <- (existsb_map_bt is_comment_node), Hshape in Ehc.
+      rewrite Ehc in Hnoc. cbn [orb] in Hnoc. apply (proj1 (str_eqb_eq _ _)) in Hnoc.
+      destruct (first_kid_hd self e rest Hshape Hie) as (b' & Hfk & Hbt & Hin). rewrite Hfk.
+      rewrite Forall_forall in Hgk, Hsk.
+      eapply post_bind; [apply (sgood_call b' (RExpr c)); [apply Hgk; exact Hin|apply Hsk; exact Hin|reflexivity]|].
+      intros tgt [Ht Wt]. apply post_ret.
+      assert (Hf : field_of self = field_access_field (Inner KFieldAccess (e :: rest) no_attrs)).
+      { unfold field_of, field_access_field, cast_last. cbn [children]. rewrite Ecs. reflexivity. }
+      split.
+      + rewrite !dsig_append, dsig_text, Ht. unfold convert_trivia. rewrite dsig_text, <- (field_token self Hs Hk).
+        rewrite (tsig_kids' _ _ Hsh0 Hk Hs), <- tsigl_map, Hshape, Heq, Hnoc, Hbt, Hf, <- app_assoc. reflexivity.
+      + apply wsig_append; [apply wsig_append; [exact Wt|apply wsig_text]|apply wsig_text].
+  Qed.
+
+  Lemma cons_convert_func_call_any self c :
+    cg self -> kind_of (bt self) = KFuncCall ->
+    post (convert_func_call swidth cfg self c) (good_doc (tsig (bt self))).
+  Proof.
+    intros Hcg Efc. pose proof Hcg as (Hg & Hs & He).
+    destruct (funcall_eq self Hg Hs Efc) as (cal & Hfk & Hcin & Heq & Hargs).
+    assert (Hik : inner_kind (bk self) = true) by (unfold bk; rewrite Efc; reflexivity).
+    destruct (cg_kid self cal Hg Hs Hik Hcin) as [Hgc Hsc].
+    (* the table clause *)
+    pose proof (good_shape _ _ Hg) as Hshape.
+    destruct (sc_inner' _ Hs Hik) as [Hcl _]. unfold bk in Hik. rewrite Efc in Hcl. cbn [knode_ok] in Hcl. rewrite <- Hshape in Hcl.
+    rewrite find_map_bt in Hcl. unfold first_kid in Hfk. rewrite Hfk in Hcl. cbn [option_map] in Hcl.
+    apply andb_prop in Hcl. destruct Hcl as [Hnt _].
+    unfold convert_func_call. unfold first_kid. rewrite Hfk.
+    assert (Hplain : post (convert_func_call_plain swidth self c) (good_doc (tsig (bt self)))).
+    { unfold convert_func_call_plain, first_kid. rewrite Hfk, Heq.
+      eapply post_bind; [apply (sgood_call cal (RExpr c) Hgc Hsc); reflexivity|]. intros dc Hdc.
+      destruct (args_of_call self) as [a|] eqn:Ea.
+      - destruct (Hargs a eq_refl) as [Hain Hak]. destruct (cg_kid self a Hg Hs ltac:(unfold bk; rewrite Efc; reflexivity) Hain) as [Hga Hsa].
+        assert (Eti : table_info_of self a = NotTable).
+        { unfold table_info_of, is_table, indent_func_name, first_kid. rewrite Hfk. unfold bk.
+          destruct (kind_eqb (kind_of (bt cal)) KIdent); [|reflexivity].
+          unfold str_in. destruct (existsb _ TABLE_FUNCS); [discriminate|reflexivity]. }
+        rewrite Eti.
+        eapply post_bind; [apply (sgood_call a (RFuncArgs c NotTable) Hga Hsa); cbn; unfold is_kind; rewrite Hak; reflexivity|].
+        intros da Hda. apply post_ret. apply good_append; assumption.
+      - destruct (is_math_mode _); [intros n d n' H; discriminate H|].
+        eapply post_bind; [apply post_ret; apply good_nil|]. intros da Hda. apply post_ret. apply good_append; assumption. }
+    unfold bk. destruct (kind_eqb (kind_of (bt cal)) KFieldAccess).
+    - eapply post_bind; [apply cons_try_convert_dot_chain; exact Hcg|].
+      intros o Ho. destruct o as [d|]; [apply post_ret; exact Ho|exact Hplain].
+    - apply (post_bind _ _ (fun o => o = None)); [apply post_ret; reflexivity|]. intros o ->. exact Hplain.
+  Qed.
+
+  (* ---------- code_chain.rs: binary chains ---------- *)
+  Definition bin_opc (seen_not : bool) (child : bundle) : bool * option doc :=
+    if kind_eqb (bk child) KNot then (true, None)
+    else if kind_eqb (bk child) KIn && seen_not then (false, Some (text (binop_as_str BNotIn)))
+    else match binop_from_kind (bk child) with
+         | Some o => (seen_not, Some (text (binop_as_str o)))
+         | None => (seen_not, None)
+         end.
+  Definition bin_rhs : ctx -> bundle -> M (option doc) := opt_conv is_expr (fun c b => call b (RExpr c)).
+
+  Definition sim_bin_step (c : tree) (so sn : bool) : str * bool * bool :=
+    let '(sn', oc) := bin_opsig sn (kind_of c) in
+    match oc with
+    | Some x => (x, true, sn')
+    | None =>
+        if is_comment_node c then (tsig c, so, sn')
+        else if kind_eqb (kind_of c) KSpace then ([], so, sn')
+        else if so then ((if is_expr c then tsig c else []), so, sn')
+        else ([], so, sn')
+    end.
+  Lemma sim_bin_cons c r so sn :
+    sim_bin (c :: r) so sn =
+    (fst (fst (sim_bin_step c so sn)) ++ fst (sim_bin r (snd (fst (sim_bin_step c so sn))) (snd (sim_bin_step c so sn))),
+     snd (sim_bin r (snd (fst (sim_bin_step c so sn))) (snd (sim_bin_step c so sn)))).
+  Proof.
+    cbn [sim_bin]. unfold sim_bin_step. destruct (bin_opsig sn (kind_of c)) as [sn' [x|]].
+    - cbn [fst snd]. destruct (sim_bin r true sn'); reflexivity.
+    - destruct (is_comment_node c); [cbn [fst snd]; destruct (sim_bin r so sn'); reflexivity|].
+      destruct (kind_eqb (kind_of c) KSpace); [cbn [fst snd app]; destruct (sim_bin r so sn'); reflexivity|].
+      destruct so; cbn [fst snd app]; destruct (sim_bin r _ sn'); reflexivity.
+  Qed.
+
+  Lemma bin_opc_sig sn k :
+    fst (bin_opc sn k) = fst (bin_opsig sn (bk k)) /\
+    match snd (bin_opc sn k), snd (bin_opsig sn (bk k)) with
+    | Some d, Some x => dsig d = x /\ wsig d = true
+    | None, None => True
+    | _, _ => False
+    end.
+  Proof.
+    unfold bin_opc, bin_opsig. destruct (kind_eqb (bk k) KNot); [cbn; auto|].
+    destruct (kind_eqb (bk k) KIn && sn); [cbn [fst snd]; split; [reflexivity|split; [apply dsig_text|apply wsig_text]]|].
+    destruct (binop_from_kind (bk k)); cbn [fst snd]; split; auto. split; [apply dsig_text|apply wsig_text].
+  Qed.
+
+  Lemma bin_inner_step_sig c k ch ca so sn :
+    sgood k -> sc (bt k) = true -> cw_all ch ->
+    post (chain_inner_step swidth c bin_opc bin_rhs (ch, ca, so, sn) k)
+         (fun st => csigs (ch_items (fst (fst (fst st)))) = csigs (ch_items ch) ++ fst (fst (sim_bin_step (bt k) so sn)) /\
+                    cw_all (fst (fst (fst st))) /\ snd (fst st) = snd (fst (sim_bin_step (bt k) so sn)) /\
+                    snd st = snd (sim_bin_step (bt k) so sn)).
+  Proof.
+    intros Hg Hk Hw. unfold chain_inner_step, sim_bin_step.
+    destruct (bin_opc_sig sn k) as [Hf Hs]. unfold bk in Hf, Hs.
+    destruct (bin_opc sn k) as [sn1 oc]. destruct (bin_opsig sn (kind_of (bt k))) as [sn2 os]. cbn [fst snd] in Hf, Hs. subst sn2.
+    destruct oc as [op|], os as [x|]; try contradiction.
+    { destruct Hs as [Hd Wd]. apply post_ret. cbn [fst snd ch_items]. rewrite csigs_snoc. cbn [csig]. rewrite Hd.
+      repeat split. apply cw_snoc; assumption. }
+    unfold is_comment_b, bk. destruct (is_comment_node (bt k)) eqn:E2.
+    { eapply post_bind; [apply post_comment; assumption|]. intros d [Hd Wd]. apply post_ret. cbn [fst snd ch_items].
+      rewrite csigs_snoc. repeat split; [destruct ca; cbn [csig]; rewrite Hd; reflexivity|].
+      apply cw_snoc; [exact Hw|destruct ca; exact Wd]. }
+    destruct (kind_eqb (kind_of (bt k)) KSpace) eqn:E3.
+    { destruct (has_lb _); apply post_ret; cbn [fst snd]; [|rewrite app_nil_r; auto].
+      destruct (chain_last_is_comment _); cbn [ch_items]; [|rewrite app_nil_r; auto].
+      rewrite csigs_snoc. cbn [csig]. repeat split. apply cw_snoc; [exact Hw|reflexivity]. }
+    destruct so.
+    - unfold bin_rhs, opt_conv. destruct (is_expr (bt k)) eqn:E4.
+      + apply (post_bind _ _ (fun o => exists d, o = Some d /\ good_doc (tsig (bt k)) d)).
+        * eapply post_bind; [apply (sgood_call k (RExpr c) Hg Hk); reflexivity|]. intros d Hd. apply post_ret. exists d. auto.
+        * intros o (d & -> & [Hd Wd]). apply post_ret. cbn [fst snd ch_items]. rewrite csigs_snoc. cbn [csig]. rewrite Hd.
+          repeat split. apply cw_snoc; assumption.
+      + apply (post_bind _ _ (fun o => o = None)); [apply post_ret; reflexivity|]. intros o ->. apply post_ret. cbn [fst snd]. rewrite app_nil_r. auto.
+    - apply post_ret. cbn [fst snd]. rewrite app_nil_r. auto.
+  Qed.
+
+  Lemma bin_inner_sig c ks : forall ch ca so sn,
+    Forall sgood ks -> Forall (fun b => sc (bt b) = true) ks -> cw_all ch ->
+    post (foldM (chain_inner_step swidth c bin_opc bin_rhs) ks (ch, ca, so, sn))
+         (fun st => csigs (ch_items (fst (fst (fst st)))) = csigs (ch_items ch) ++ fst (sim_bin (map bt ks) so sn) /\
+                    cw_all (fst (fst (fst st))) /\ snd st = snd (sim_bin (map bt ks) so sn)).
+  Proof.
+    induction ks as [|k ks IH]; intros ch ca so sn Hg Hs Hw; cbn [foldM map].
+    - apply post_ret. cbn [fst snd sim_bin]. rewrite app_nil_r. auto.
+    - inversion Hg; subst. inversion Hs; subst. rewrite sim_bin_cons. cbn [fst snd].
+      eapply post_bind; [apply bin_inner_step_sig; assumption|].
+      intros [[[ch1 ca1] so1] sn1] (E1 & W1 & S1 & N1). cbn [fst snd] in *. subst so1 sn1.
+      eapply post_weaken; [apply IH; assumption|]. intros st (E & W & N). rewrite E, E1, <- app_assoc. auto.
+  Qed.
+
+  Section BinChain.
+    Variable prec : N.
+    Definition bin_pred (node : bundle) : bool := kind_eqb (bk node) KBinary && (binop_precedence (binary_op (bt node)) =? prec).
+    Definition bin_next := binary_chain_next prec.
+
+    Lemma bin_outer_step_sig c b ch ca :
+      cg b -> cw_all ch ->
+      match bin_next b with Some b' => csigs (ch_items ch) = tsig (bt b') | None => ch_items ch = [] end ->
+      post (chain_outer_step swidth c bin_pred bin_opc bin_rhs bin_rhs (ch, ca, false) b)
+           (fun st => csigs (ch_items (fst (fst st))) = tsig (bt b) /\ cw_all (fst (fst st)) /\ snd st = false).
+    Proof.
+      intros (Hg & Hs & He) Hw Hprev. unfold chain_outer_step, bin_pred, bin_next, binary_chain_next in *. unfold bk in *.
+      pose proof (good_shape _ _ Hg) as Hshape.
+      destruct (kind_eqb (kind_of (bt b)) KBinary && (binop_precedence (binary_op (bt b)) =? prec)) eqn:Epred.
+      - apply andb_prop in Epred. destruct Epred as [Efa _]. apply keq in Efa.
+        assert (Hk : inner_kind (kind_of (bt b)) = true) by (rewrite Efa; reflexivity).
+        destruct (sc_inner' _ Hs Hk) as [Hcl Hck]. rewrite Efa in Hcl. cbn [knode_ok] in Hcl.
+        destruct (children (bt b)) as [|e rest] eqn:Ecs; [discriminate|].
+        assert (Hsh0 : map bt (bkids b) = children (bt b)) by (rewrite Ecs; exact Hshape).
+        apply andb_prop in Hcl. destruct Hcl as [Hcl _]. apply andb_prop in Hcl. destruct Hcl as [Hcl Hsn].
+        apply andb_prop in Hcl. destruct Hcl as [Hie Heq]. apply (proj1 (str_eqb_eq _ _)) in Heq.
+        destruct (first_kid_hd b e rest Hshape Hie) as (b' & Hfk & Hbt & Hin). rewrite Hfk in Hprev.
+        assert (Hkids : Forall sgood (bkids b) /\ Forall (fun k => sc (bt k) = true) (bkids b)).
+        { split; [apply (good_kids _ _ Hg)|]. apply Forall_forall. intros k Hink. apply (cg_kid b k Hg Hs Hk Hink). }
+        eapply post_bind.
+        + apply (bin_inner_sig c (bkids b) (mk_chain (ch_items ch) (ch_op_num ch + 1) (ch_has_comment ch)) ca false false); [apply Hkids|apply Hkids|exact Hw].
+        + intros [[[ch1 ca1] so1] s1] (E & W & N). cbn [fst snd ch_items] in *. apply post_ret. cbn [fst snd].
+          rewrite Hshape in E, N. split; [|split; [exact W|]].
+          * rewrite E, Hprev, Hbt, <- Heq. rewrite (tsig_kids' (bt b) (bkids b) Hsh0 Hk Hs), <- tsigl_map, Hshape. reflexivity.
+          * rewrite N. destruct (snd (sim_bin (e :: rest) false false)); [discriminate|reflexivity].
+      - (* the innermost node of the chain: any expression *)
+        assert (Hnone : ch_items ch = []) by exact Hprev.
+        unfold bin_rhs, opt_conv. rewrite He.
+        apply (post_bind _ _ (fun o => exists d, o = Some d /\ good_doc (tsig (bt b)) d)).
+        + eapply post_bind; [apply (sgood_call b (RExpr c) Hg Hs); reflexivity|]. intros d Hd. apply post_ret. exists d. auto.
+        + intros o (d & -> & [Hd Wd]). rewrite Hnone. cbn [rev app]. apply post_ret. cbn [fst snd ch_items].
+          rewrite csigs_one. cbn [csig]. repeat split; [exact Hd|]. constructor; [exact Wd|constructor].
+    Qed.
+
+    Lemma bin_chain_fold_sig c : forall d b,
+      (tree_height (bt b) <= d)%nat -> cg b ->
+      post (foldM (chain_outer_step swidth c bin_pred bin_opc bin_rhs bin_rhs) (rev (resolve_chain bin_next d b)) (chain_new, false, false))
+           (fun st => csigs (ch_items (fst (fst st))) = tsig (bt b) /\ cw_all (fst (fst st)) /\ snd st = false).
+    Proof.
+      induction d as [|d IH]; intros b Hh Hcg.
+      - pose proof (tree_height_pos (bt b)). lia.
+      - cbn [resolve_chain]. destruct (bin_next b) as [b'|] eqn:En.
+        + cbn [rev].
+          assert (Hkid : In b' (bkids b) /\ is_expr (bt b') = true /\ inner_kind (bk b) = true).
+          { unfold bin_next, binary_chain_next, first_kid in En. unfold bk in *.
+            destruct (kind_eqb (kind_of (bt b)) KBinary) eqn:Ekb; cbn [andb] in En; [|discriminate].
+            destruct (_ =? prec); [|discriminate]. apply find_some in En. destruct En. apply keq in Ekb. rewrite Ekb. repeat split; auto. }
+          destruct Hkid as (Hin & Hie & Hik). destruct Hcg as (Hg & Hs & He). destruct (cg_kid b b' Hg Hs Hik Hin) as [Hg' Hs'].
+          assert (Hh' : (tree_height (bt b') <= d)%nat).
+          { pose proof (good_shape _ _ Hg) as Hsh. destruct (bt b) as [k s a|k cs a] eqn:Eb; cbn [children] in Hsh.
+            - destruct (bkids b); [contradiction|discriminate].
+            - assert (In (bt b') cs) by (rewrite <- Hsh; apply in_map; exact Hin).
+              pose proof (tree_height_child (bt b') k cs a H). lia. }
+          eapply post_foldM_app; [apply (IH b' Hh'); exact (conj Hg' (conj Hs' Hie))|].
+          intros [[ch ca] s] (E & W & Es). cbn [fst snd] in *. subst s. cbn [foldM].
+          eapply post_bind; [apply bin_outer_step_sig; [exact (conj Hg (conj Hs He))|exact W|rewrite En; exact E]|].
+          intros st H. apply post_ret. exact H.
+        + cbn [rev app foldM]. eapply post_bind; [apply bin_outer_step_sig; [exact Hcg|constructor|rewrite En; reflexivity]|].
+          intros st H. apply post_ret. exact H.
+    Qed.
+  End BinChain.
+
+  Theorem cons_convert_binary_chain self c :
+    cg self -> post (convert_binary_chain swidth cfg self c) (good_doc (tsig (bt self))).
+  Proof.
+    intros Hcg. unfold convert_binary_chain.
+    eapply post_bind.
+    - apply post_and; [|apply (chain_process_attached_ok swidth)].
+      unfold chain_process.
+      apply (post_bind _ _ (fun st : chain * bool * bool => csigs (ch_items (fst (fst st))) = tsig (bt self) /\ cw_all (fst (fst st)))).
+      + eapply post_weaken; [apply (bin_chain_fold_sig (binop_precedence (binary_op (bt self))) c (tree_height (bt self)) self (le_n _) Hcg)|].
+        intros st (E & W & _). auto.
+      + intros [[ch ca] s] [E W]. apply post_ret. cbn [fst] in *. exact (conj E W).
+    - intros ch [[E W] Hatt]. unfold chain_doc, lift. intros n d n' H.
+      destruct (chain_print_doc swidth (tab_spaces cfg) ch (mk_cs false true)) as [d0|] eqn:Ep; [|discriminate].
+      inversion H; subst. destruct (chain_print_sig swidth (tab_spaces cfg) ch _ d Hatt Ep) as [Hd Hwd].
+      split; [rewrite Hd; exact E|apply Hwd; exact W].
+  Qed.
+
+  Lemma cons_convert_binary self c :
+    cg self -> kind_of (bt self) = KBinary -> post (convert_binary swidth cfg self c) (good_doc (tsig (bt self))).
+  Proof.
+    intros Hcg Eb. pose proof Hcg as (Hg & Hs & He). unfold convert_binary.
+    destruct (negb (c_supp c) && _).
+    - unfold parenthesize_if_necessary. destruct (is_code_cont _); [apply cons_convert_binary_chain; exact Hcg|].
+      eapply post_bind; [apply cons_convert_binary_chain; exact Hcg|]. intros d [Hd Wd]. apply post_ret.
+      unfold optional_paren. split.
+      + rewrite dsig_group, dsig_append, dsig_nest, dsig_append. cbn [dsig flat_alt]. rewrite Hd. cbn. rewrite app_nil_r. reflexivity.
+      + rewrite wsig_group. apply wsig_append; [rewrite wsig_nest; apply wsig_append; [|exact Wd]|]; apply wsig_flat_alt; try reflexivity;
+          first [apply wsig_append; [apply wsig_text|reflexivity] | apply wsig_append; [reflexivity|apply wsig_text]].
+    - pose proof (good_shape _ _ Hg) as Hshape.
+      assert (Hk : inner_kind (kind_of (bt self)) = true) by (rewrite Eb; reflexivity).
+      destruct (sc_inner' _ Hs Hk) as [Hcl _]. rewrite Eb in Hcl. cbn [knode_ok] in Hcl.
+      destruct (children (bt self)) as [|e rest] eqn:Ecs; [discriminate|].
+      assert (Hsh0 : map bt (bkids self) = children (bt self)) by (rewrite Ecs; exact Hshape).
+      apply andb_prop in Hcl. destruct Hcl as [_ Hkeep]. rewrite <- Hshape in Hkeep.
+      rewrite (tsig_kids' _ _ Hsh0 Hk Hs).
+      apply flow_like_sig. apply Forall_forall. intros child Hin.
+      destruct (cg_kid self child Hg Hs Hk Hin) as [Hsg Hsc].
+      pose proof (all_kept_in _ _ (bt child) Hkeep (in_map bt _ _ Hin)) as Hkp. cbn beta in Hkp.
+      split; [exact Hsc|]. intros Hgen c0. unfold bk.
+      destruct (binop_from_kind (kind_of (bt child))) eqn:E1.
+      { apply post_ret. fsimp. apply good_tx; [exact Hsc|]. unfold bk. destruct (kind_of (bt child)); try discriminate E1; reflexivity. }
+      destruct (is_expr (bt child)) eqn:E2.
+      { pstep Hsg Hsc. apply post_ret. fsimp. split; assumption. }
+      apply post_ret. fsimp. rewrite ?Hgen, ?E1, ?E2 in Hkp. cbn in Hkp. unfold sig_empty in Hkp.
+      destruct (tsig (bt child)); [reflexivity|discriminate].
+  Qed.
+
   (* ---------- dispatch, step, build ---------- *)
   Lemma tsig_kids t kids : map bt kids = children t -> inner_kind (kind_of t) = true -> sc t = true -> tsig t = tsigs kids.
   Proof.
@@ -1690,9 +2322,9 @@ Section SigConv.
     Proof. intros Hk. unfold convert_trivia. rewrite (sc_token t Hsc Hk). apply good_text. Qed.
 
     Lemma cons_convert_expr_impl self c :
-      bt self = t -> bkids self = kids -> post (convert_expr_impl swidth cfg self c) (good_doc (tsig t)).
+      sgood self -> bt self = t -> bkids self = kids -> post (convert_expr_impl swidth cfg self c) (good_doc (tsig t)).
     Proof.
-      intros Et Ek. unfold convert_expr_impl. rewrite Et, Ek.
+      intros Hself Et Ek. unfold convert_expr_impl. rewrite Et, Ek.
       destruct (kind_of t) eqn:E;
         lazymatch goal with
         | E : kind_of t = KParbreak |- _ =>
@@ -1729,11 +2361,17 @@ Section SigConv.
             apply good_text
         | E : kind_of t = KParenthesized |- _ => inner_case cons_convert_parenthesized
         | E : kind_of t = KFuncCall |- _ =>
-            let Hk := fresh "Hk" in
-            assert (Hk : inner_kind (kind_of t) = true) by (rewrite E; reflexivity);
-            pose proof (node_clause Hk) as Hclause; rewrite E in Hclause; cbn [knode_ok] in Hclause;
-            rewrite (tsig_kids t kids Hshape Hk Hsc);
-            apply (cons_convert_func_call t kids Hgood (kids_scope Hk) self c Et Ek Hclause)
+            let Hcgs := fresh "Hcgs" in
+            assert (Hcgs : cg self) by (unfold cg; rewrite Et; split; [exact Hself|split; [exact Hsc|unfold is_expr; rewrite E; reflexivity]]);
+            rewrite <- Et; apply cons_convert_func_call_any; [exact Hcgs|rewrite Et; exact E]
+        | E : kind_of t = KBinary |- _ =>
+            let Hcgs := fresh "Hcgs" in
+            assert (Hcgs : cg self) by (unfold cg; rewrite Et; split; [exact Hself|split; [exact Hsc|unfold is_expr; rewrite E; reflexivity]]);
+            rewrite <- Et; apply cons_convert_binary; [exact Hcgs|rewrite Et; exact E]
+        | E : kind_of t = KFieldAccess |- _ =>
+            let Hcgs := fresh "Hcgs" in
+            assert (Hcgs : cg self) by (unfold cg; rewrite Et; split; [exact Hself|split; [exact Hsc|unfold is_expr; rewrite E; reflexivity]]);
+            rewrite <- Et; apply cons_convert_field_access; [exact Hcgs|rewrite Et; exact E]
         | E : kind_of t = KCodeBlock |- _ =>
             let Hk := fresh "Hk" in
             assert (Hk : inner_kind (kind_of t) = true) by (rewrite E; reflexivity);
@@ -1809,9 +2447,9 @@ Section SigConv.
     Proof. intros H. unfold check_disabled. destruct (a_disabled _); [apply post_ret; apply good_verbatim|exact H]. Qed.
 
     Lemma cons_convert_expr self c :
-      bt self = t -> bkids self = kids -> post (convert_expr swidth cfg self c) (good_doc (tsig t)).
+      sgood self -> bt self = t -> bkids self = kids -> post (convert_expr swidth cfg self c) (good_doc (tsig t)).
     Proof.
-      intros Et Ek. unfold convert_expr. apply post_bump_then. rewrite Et. apply cons_check_disabled.
+      intros Hself Et Ek. unfold convert_expr. apply post_bump_then. rewrite Et. apply cons_check_disabled.
       apply (cons_convert_expr_impl t kids Hgood Hshape Hsc); assumption.
     Qed.
 
@@ -1825,9 +2463,9 @@ Section SigConv.
       end.
 
     Lemma cons_convert_pattern self c :
-      bt self = t -> bkids self = kids -> post (convert_pattern swidth cfg self c) (good_doc (tsig t)).
+      sgood self -> bt self = t -> bkids self = kids -> post (convert_pattern swidth cfg self c) (good_doc (tsig t)).
     Proof.
-      intros Et Ek. unfold convert_pattern. apply post_bump_then. rewrite Et. apply cons_check_disabled.
+      intros Hself Et Ek. unfold convert_pattern. apply post_bump_then. rewrite Et. apply cons_check_disabled.
       unfold bk. rewrite Et, Ek. destruct (kind_of t) eqn:E; try (apply cons_convert_expr; assumption).
       - (* Underscore *) apply post_ret. rewrite (sc_fixed t [95] Hsc) by (rewrite E; reflexivity). apply good_text.
       - (* Parenthesized *) inner_case2 cons_convert_parenthesized.
@@ -1835,9 +2473,9 @@ Section SigConv.
     Qed.
 
     Lemma cons_convert_embedded_expr self c :
-      bt self = t -> bkids self = kids -> post (convert_embedded_expr swidth cfg self c) (good_doc (tsig t)).
+      sgood self -> bt self = t -> bkids self = kids -> post (convert_embedded_expr swidth cfg self c) (good_doc (tsig t)).
     Proof.
-      intros Et Ek. unfold convert_embedded_expr. unfold bk. rewrite Et, Ek.
+      intros Hself Et Ek. unfold convert_embedded_expr. unfold bk. rewrite Et, Ek.
       destruct (kind_eqb (kind_of t) KParenthesized) eqn:E0; [|apply cons_convert_expr; assumption].
       apply keq in E0. apply post_bump_then. apply cons_check_disabled. rename E0 into E. inner_case2 cons_convert_parenthesized.
     Qed.
@@ -1845,11 +2483,13 @@ Section SigConv.
     Theorem step_sig r : fit r t = true -> post (step swidth cfg t kids r) (good_doc (tsig t)).
     Proof.
       intros Hfit. unfold step.
+      assert (Hpself : sgood (Bundle t (fun _ => panic SBadRequest) kids)).
+      { apply good_intro; [intros _ r0 _ n d n' H; discriminate H|exact Hshape|exact Hgood]. }
       destruct r; cbn [fit] in Hfit; unfold is_kind in Hfit; try apply keq in Hfit;
         lazymatch goal with
-        | |- post (convert_expr _ _ _ _) _ => apply cons_convert_expr; reflexivity
-        | |- post (convert_pattern _ _ _ _) _ => apply cons_convert_pattern; reflexivity
-        | |- post (convert_embedded_expr _ _ _ _) _ => apply cons_convert_embedded_expr; reflexivity
+        | |- post (convert_expr _ _ _ _) _ => apply cons_convert_expr; [exact Hpself|reflexivity|reflexivity]
+        | |- post (convert_pattern _ _ _ _) _ => apply cons_convert_pattern; [exact Hpself|reflexivity|reflexivity]
+        | |- post (convert_embedded_expr _ _ _ _) _ => apply cons_convert_embedded_expr; [exact Hpself|reflexivity|reflexivity]
         | |- post (convert_markup_impl _ _ _ _ _) _ => rename Hfit into E; inner_case2 cons_convert_markup_impl
         | |- post (convert_content_block _ _ _ _) _ => rename Hfit into E; inner_case2 cons_convert_content_block
         | |- post (convert_math _ _ _ _) _ =>
